@@ -55,11 +55,11 @@ func buildC16Index(rp *spec.Program, pr *spec.Printed) *c16Index {
 			op := strings.Join(x.Operand, " ")
 			switch x.Kind {
 			case spec.LeafFlag:
-				ix.flagLeaf[op] = x.ID
+				ix.flagLeaf[op] = -x.ID
 			case spec.LeafVar:
-				ix.varLeaf[op] = x.ID
+				ix.varLeaf[op] = -x.ID
 			case spec.LeafDefeated:
-				ix.trLeaf[op] = x.ID
+				ix.trLeaf[op] = -x.ID
 			case spec.LeafAuto:
 				ix.autoVar[autoVarNameOf(x.Auto, rp)] = x.Auto.ID
 			}
@@ -401,7 +401,7 @@ func runC16(ctx *h.Ctx) int {
 						v, _ := asm.SplitLast(nx.Args)
 						for _, c := range sw.Cases {
 							if !c.Default && strings.Join(c.Value, " ") == v {
-								id, what = c.ID, "case"
+								id, what = -c.ID, "case"
 							}
 						}
 					}
